@@ -224,6 +224,7 @@ Inductive shape :=
 | SArray (s : shape)                 (* [1]T{x} *)
 | SMapVal (s : shape)                (* map[string]T{"k": x} *)
 | SMapKey                            (* map[configopaque.String]string{x: "v"} *)
+| SMapKey2                           (* ... {x: "v", x+"#2": "w"}: two opaque keys (second x sorts after x) *)
 | SIface (s : shape).                (* a field / element of type any holding T *)
 
 Fixpoint tyname (sh : shape) : string :=
@@ -235,7 +236,7 @@ Fixpoint tyname (sh : shape) : string :=
   | SSlice s => "[]" ++ tyname s
   | SArray s => "[1]" ++ tyname s
   | SMapVal s => "map[string]" ++ tyname s
-  | SMapKey => "map[configopaque.String]string"
+  | SMapKey | SMapKey2 => "map[configopaque.String]string"
   | SIface _ => "interface {}"
   end.
 
@@ -243,7 +244,10 @@ Fixpoint tyname (sh : shape) : string :=
 Fixpoint dyn (sh : shape) : shape := match sh with SIface s => dyn s | _ => sh end.
 
 Definition is_container (sh : shape) : bool :=
-  match dyn sh with SField _ _ | SSlice _ | SArray _ | SMapVal _ | SMapKey => true | _ => false end.
+  match dyn sh with SField _ _ | SSlice _ | SArray _ | SMapVal _ | SMapKey | SMapKey2 => true | _ => false end.
+
+(* the second secret held by a two-key map *)
+Definition second (s : string) : string := s ++ "#2".
 
 (* an address: never modelled as digits, the correspondence only compares "an address was printed" *)
 Definition ADDR : string := ch 1.
@@ -255,7 +259,7 @@ Definition is_bare (sh : shape) : bool := match sh with SBare => true | _ => fal
 
 (* pointer to array, slice, struct or map: printed as &{...} at top level only *)
 Definition amp_kind (sh : shape) : bool :=
-  match sh with SField _ _ | SSlice _ | SArray _ | SMapVal _ | SMapKey => true | _ => false end.
+  match sh with SField _ _ | SSlice _ | SArray _ | SMapVal _ | SMapKey | SMapKey2 => true | _ => false end.
 
 (* verbs fmtPointer accepts *)
 Definition ptr_verb (v : string) : bool :=
@@ -299,6 +303,14 @@ Fixpoint pv (M : methods) (st : pst) (verb : string) (sh : shape) (depth : nat) 
       let k := leaf_opaque M st verb (negb ro) s in
       let e := leaf_plain st verb "string" "v" in
       if sharpV st then tyname sh ++ "{" ++ k ++ ":" ++ e ++ "}" else "map[" ++ k ++ ":" ++ e ++ "]"
+  | SMapKey2 =>
+      (* internal/fmtsort orders the entries by the RAW keys: x before x+"#2" *)
+      let k1 := leaf_opaque M st verb (negb ro) s in
+      let k2 := leaf_opaque M st verb (negb ro) (second s) in
+      let e1 := leaf_plain st verb "string" "v" in
+      let e2 := leaf_plain st verb "string" "w" in
+      if sharpV st then tyname sh ++ "{" ++ k1 ++ ":" ++ e1 ++ ", " ++ k2 ++ ":" ++ e2 ++ "}"
+      else "map[" ++ k1 ++ ":" ++ e1 ++ " " ++ k2 ++ ":" ++ e2 ++ "]"
   end.
 
 Definition mk_pst (verb : string) (f : flags) : pst :=
@@ -307,7 +319,7 @@ Definition mk_pst (verb : string) (f : flags) : pst :=
   else Pst f false false false.
 
 Definition addr_kind (sh : shape) : bool :=
-  match dyn sh with SPtr _ | SSlice _ | SMapVal _ | SMapKey => true | _ => false end.
+  match dyn sh with SPtr _ | SSlice _ | SMapVal _ | SMapKey | SMapKey2 => true | _ => false end.
 
 (* Sprintf("%<flags><wid>.<prec><verb>", value) — print.go printArg *)
 Definition render_fmt (M : methods) (verb : string) (f : flags) (sh : shape) (s : string) : string :=
@@ -334,6 +346,8 @@ Fixpoint js (M : methods) (html : bool) (sh : shape) (s : string) : string :=
   | SArray i => "[" ++ js M html i s ++ "]"
   | SMapVal i => "{" ++ dquote ++ "k" ++ dquote ++ ":" ++ js M html i s ++ "}"
   | SMapKey => "{" ++ json_quote html s ++ ":" ++ dquote ++ "v" ++ dquote ++ "}"   (* the key is taken raw *)
+  | SMapKey2 => "{" ++ json_quote html s ++ ":" ++ dquote ++ "v" ++ dquote ++ ","
+                    ++ json_quote html (second s) ++ ":" ++ dquote ++ "w" ++ dquote ++ "}"   (* sorted by raw key *)
   end.
 
 (* ------------------------------------------------------------------------------------------ *)
@@ -373,29 +387,45 @@ Fixpoint yaml_tree (M : methods) (sh : shape) (s : string) : tree :=
   | SArray i => TList [yaml_tree M i s]
   | SMapVal i => TMap [("k", yaml_tree M i s)]
   | SMapKey => TMap [(m_MarshalText M s, TStr "v")]
+  | SMapKey2 => TMap [(m_MarshalText M s, TStr "v"); (m_MarshalText M (second s), TStr "w")]
   end.
 
 (* confmap encoder.encode: Interface/Ptr -> Elem; Map; Slice; Struct; everything else (strings,
    ARRAYS, ...) goes to the hook chain, whose TextMarshalerHookFunc replaces a TextMarshaler by
    its text and leaves any other value as it is *)
-Fixpoint conf_tree (M : methods) (sh : shape) (s : string) : tree :=
+Inductive cres := COk (t : tree) | CErr (e : string).
+
+Definition cmap (f : tree -> tree) (wrap : string -> string) (r : cres) : cres :=
+  match r with COk t => COk (f t) | CErr e => CErr (wrap e) end.
+
+(* errors are wrapped on the way up (encodeStruct / encodeSlice / encodeMap); a map whose keys
+   encode to the same string fails with the ENCODED key in the message *)
+Fixpoint conf_tree (M : methods) (sh : shape) (s : string) : cres :=
   match sh with
-  | SBare => TStr (m_MarshalText M s)
+  | SBare => COk (TStr (m_MarshalText M s))
   | SPtr i => conf_tree M i s
   | SIface i => conf_tree M i s
-  | SField true i => TMap [("f", conf_tree M i s)]
-  | SField false _ => TMap []
-  | SSlice i => TList [conf_tree M i s; conf_tree M i s]
-  | SArray _ => TRaw (tyname sh)
-  | SMapVal i => TMap [("k", conf_tree M i s)]
-  | SMapKey => TMap [(m_MarshalText M s, TStr "v")]
+  | SField true i => cmap (fun t => TMap [("f", t)])
+                          (fun e => "error encoding field " ++ go_quote "f" ++ ": " ++ e) (conf_tree M i s)
+  | SField false _ => COk (TMap [])
+  | SSlice i => cmap (fun t => TList [t; t])
+                     (fun e => "error encoding element in slice at index 0: " ++ e) (conf_tree M i s)
+  | SArray _ => COk (TRaw (tyname sh))
+  | SMapVal i => cmap (fun t => TMap [("k", t)])
+                      (fun e => "error encoding map value for key " ++ go_quote "k" ++ ": " ++ e) (conf_tree M i s)
+  | SMapKey => COk (TMap [(m_MarshalText M s, TStr "v")])
+  | SMapKey2 =>
+      if String.eqb (m_MarshalText M s) (m_MarshalText M (second s))
+      then CErr ("duplicate key " ++ go_quote (m_MarshalText M s) ++ " while encoding")
+      else COk (TMap [(m_MarshalText M s, TStr "v"); (m_MarshalText M (second s), TStr "w")])
   end.
 
-(* Conf.Marshal accepts only a value that encodes to a map *)
+(* Conf.Marshal accepts only a value that encodes to a map; an encoder error is returned as is *)
 Definition render_confmap (M : methods) (sh : shape) (s : string) : string :=
   match conf_tree M sh s with
-  | TMap l => canon (TMap l)
-  | _ => "ERR invalid config encoding"
+  | COk (TMap l) => canon (TMap l)
+  | COk _ => "ERR invalid config encoding"
+  | CErr e => "ERR " ++ e
   end.
 
 (* ------------------------------------------------------------------------------------------ *)
@@ -449,7 +479,7 @@ Definition render (M : methods) (p : path) (sh : shape) (s : string) : string :=
 (* ------------------------------------------------------------------------------------------ *)
 Fixpoint no_unexported (sh : shape) : bool :=
   match sh with
-  | SBare | SMapKey => true
+  | SBare | SMapKey | SMapKey2 => true
   | SField ex i => ex && no_unexported i
   | SPtr i | SSlice i | SArray i | SMapVal i | SIface i => no_unexported i
   end.
@@ -457,7 +487,7 @@ Fixpoint no_unexported (sh : shape) : bool :=
 Fixpoint no_mapkey (sh : shape) : bool :=
   match sh with
   | SBare => true
-  | SMapKey => false
+  | SMapKey | SMapKey2 => false
   | SField _ i | SPtr i | SSlice i | SArray i | SMapVal i | SIface i => no_mapkey i
   end.
 
@@ -465,7 +495,7 @@ Fixpoint no_mapkey (sh : shape) : bool :=
    through fmtPointer, whose bad-verb report for %s and %q dereferences it raw) *)
 Fixpoint no_deep_ptr (sh : shape) (depth : nat) : bool :=
   match sh with
-  | SBare | SMapKey => true
+  | SBare | SMapKey | SMapKey2 => true
   | SPtr i => (negb (amp_kind i) || Nat.eqb depth 0) && no_deep_ptr i (S depth)
   | SField _ i | SSlice i | SArray i | SMapVal i | SIface i => no_deep_ptr i (S depth)
   end.
@@ -488,7 +518,7 @@ Definition safe (p : path) (sh : shape) : bool :=
 (* does printValue get down to the value (no pointer printed as an address on the way)? *)
 Fixpoint fmt_reaches (sh : shape) (depth : nat) : bool :=
   match sh with
-  | SBare | SMapKey => true
+  | SBare | SMapKey | SMapKey2 => true
   | SIface i => fmt_reaches i (S depth)
   | SPtr i => is_bare i || (amp_kind i && Nat.eqb depth 0 && fmt_reaches i (S depth))
   | SField _ i | SSlice i | SArray i | SMapVal i => fmt_reaches i (S depth)
@@ -497,7 +527,7 @@ Fixpoint fmt_reaches (sh : shape) (depth : nat) : bool :=
 Fixpoint no_array (sh : shape) : bool :=
   match sh with
   | SBare | SMapKey => true
-  | SArray _ => false
+  | SArray _ | SMapKey2 => false      (* (a two-key map makes the config-map encoder fail) *)
   | SField _ i | SPtr i | SSlice i | SMapVal i | SIface i => no_array i
   end.
 
@@ -569,17 +599,47 @@ Definition methods_ignore_receiver : bool :=
 (* ------------------------------------------------------------------------------------------ *)
 (* Decoding direction: what ends up stored in the opaque field                                 *)
 (* ------------------------------------------------------------------------------------------ *)
+(* how YAML reads a text: as a string, as null, or as something else (number, bool, sequence, ...);
+   supplied by the harness from the YAML library itself *)
+Inductive ycls := YStr | YNull | YOther.
+
 Inductive uctx :=
 | UJson | UYaml                      (* encoding/json, goyaml.v3 Unmarshal into struct { F String } *)
 | UConfPlain                         (* confmap Unmarshal into a struct field / map value / slice element *)
 | UConfNestedUnmarshaler             (* ... inside a named sub-struct that implements confmap.Unmarshaler *)
 | UConfSquashPlain                   (* ... inside a squashed embedded struct without Unmarshaler *)
-| UConfSquashUnmarshaler.            (* ... inside a squashed embedded struct that implements Unmarshaler *)
+| UConfSquashUnmarshaler             (* ... inside a squashed embedded struct that implements Unmarshaler *)
+(* the text comes from a provider expansion, resolved by confmap.Resolver, then Unmarshal: *)
+| UExpScalar                         (* tok: ${env:X} / ${file:P} into a String field *)
+| UExpMapVal                         (* hdr: {a: ${env:X}} into map[string]String *)
+| UExpSliceElem                      (* list: ["${env:X}"] into []String *)
+| UExpInline                         (* inl: pre-${env:X}-post into a String field *)
+| UExpPtr (c : ycls).                (* ptr: ${env:X} into a *String field *)
+
+Inductive ures := Stored (s : string) | NilPtr | DecodeError.
 
 (* unmarshalerEmbeddedStructsHookFunc: the squashed struct is unmarshalled, then MARSHALLED back
-   into a Conf (which redacts) and the result overwrites the input map before the final decode *)
-Definition unmarshal (M : methods) (u : uctx) (t : string) : string :=
+   into a Conf (which redacts) and the result overwrites the input map before the final decode.
+   useExpandValue: an expanded value keeps its original text only for a target of KIND string; a
+   pointer target gets the YAML-parsed value (nil for null, a decode error for a non-string). *)
+Definition unmarshal (M : methods) (u : uctx) (t : string) : ures :=
   match u with
-  | UConfSquashUnmarshaler => m_MarshalText M t
-  | _ => t
+  | UConfSquashUnmarshaler => Stored (m_MarshalText M t)
+  | UExpInline => Stored ("pre-" ++ t ++ "-post")
+  | UExpPtr YNull => NilPtr
+  | UExpPtr YOther => DecodeError
+  | _ => Stored t
   end.
+
+(* ------------------------------------------------------------------------------------------ *)
+(* Use: the code that needs the secret converts explicitly                                     *)
+(* ------------------------------------------------------------------------------------------ *)
+Inductive consumer :=
+| UseHttpClientHeader                (* confighttp headerRoundTripper: req.Header.Set(k, string(v)) *)
+| UseHttpClientHost                  (* ... the Host header: req.Host = string(v) *)
+| UseHttpServerResponseHeader        (* confighttp responseHeadersHandler *)
+| UseGrpcUnary (bin : bool)          (* configgrpc addHeadersIfAbsent via the unary interceptor; key ends in -bin? *)
+| UseGrpcStream (bin : bool)         (* ... via the stream interceptor *)
+| UseTLSKeyPair.                     (* configtls: CertPem / KeyPem parsed as the key pair *)
+
+Definition use (c : consumer) (s : string) : string := s.
